@@ -140,7 +140,9 @@ func Materialise(root string, t TreeSpec) error {
 
 var treeNames = []string{"a", "b", "c", "main.tf", "mod", "x.txt", "d", "e", "sub", "data"}
 var treeOddNames = []string{"with space", ".hidden", "-dash", "ünï", "日本", "a+b", "a&b", "(x)", "semi;colon", "new\nline", "q?m", "st*r", "br[ack]", "ti~de", "per%cent", "ha#sh", "at@", "do$lar", "tab\tname", "quo'te", "dq\"", "back\\slash", "tr\\",
-	strings.Repeat("n", 100), strings.Repeat("o", 101), strings.Repeat("p", 155), strings.Repeat("q", 156), strings.Repeat("r", 255), ".terraform", ".git", "modules", ".terraformignore.bak", "...", "..a", "a.."}
+	strings.Repeat("n", 100), strings.Repeat("o", 101), strings.Repeat("p", 155), strings.Repeat("q", 156), strings.Repeat("r", 255), ".terraform", ".git", "modules", ".terraformignore.bak", "...", "..a", "a..",
+	// legal on Linux: names that are not valid UTF-8
+	"caf\xe9.tf", "\xff\xfe", "ok\xc3\x28"}
 
 var treeMtimes = []int64{1500000000, 1600000001, 946684800, 1, 86400, 2000000000, 1234567890, 7258118400 /* 2200 */, 8589934592 /* > 2^33: needs PAX or GNU base-256 */, 1700000000}
 var treeFracs = []int64{0, 0, 0, 400000000, 500000000, 600000000, 999999999, 1, 499999999, 500000001}
